@@ -596,7 +596,8 @@ func runOrder(c *mon.Case) {
 
 func Spec() *mon.Spec {
 	return &mon.Spec{
-		ID: "C10", Level: "exploration",
+		ID:            "C10",
+		SpinViolation: true, Level: "exploration",
 		Rule: "case = one call of order on a list variable (1/5: fed through a pipe) of length 0..300 (dense at 0..13 and 11..42) whose keys come from a small domain (1..6 values, so ties are frequent) of mutually comparable values: strings, exact numbers, floats incl. NaN/±0/±Inf, exact+inexact mixes that are exactly representable, bools, lists and lists of lists of those; comparator variants: default, &key (element [key tag], count, num of strings), &less-than (compare, <, >, <s, with &key), &total over mixed types incl. maps, each with and without &reverse. The output must be, element by element and by object identity, the stable sort of the input under the documented comparator (own insertion sort over the reference compare), descending with input order among ties for &reverse. Error cases (6/20): uncomparable types / maps / list elements, &key or &less-than callback throwing at its k-th call (k up to the last call, found by a dry run), wrong arity, non-bool, &total with &less-than: an exception with the right reason and no output at all. Non-trivial = a success case with at least one tie between adjacent outputs, or any error case.",
 		Assumptions: []string{
 			"with &reverse, values that compare equal keep their input order (property statement)",
